@@ -70,6 +70,10 @@ def load_one(lit: LineIterator) -> dict:
 
     # mulliken charges
     if data.get("mulliken_charges") is not None:
+        if "atnums" in result and len(data["mulliken_charges"]) != len(result["atnums"]):
+            raise LoadError(
+                "The number of Mulliken charges is inconsistent with the number of atoms.", lit
+            )
         result["atcharges"] = {"mulliken": data["mulliken_charges"]}
 
     # build molecular orbitals
